@@ -682,6 +682,9 @@ def run(scenario, params, tape, detail=False):
                 probe("dup_delivered_as_callback")
             elif k > emitted:
                 viol.append(("C06.cb", "dup-count", f"duplicate reply {name} token {tk} was emitted {emitted} time(s) but reached the callbacks {k} times"))
+            elif k == 0 and not faults:
+                # (the generator only emits a duplicate when no call is registered under its sequence any more: it answers no pending call)
+                viol.append(("C06.cb", "dup-lost", f"duplicate reply {name} token {tk} answered no pending call (its call had completed) and reached the callbacks 0 times"))
     for k, v in rig.probes().items():
         probes[k] = probes.get(k, 0) + v
     outcomes = tuple((c["name"], c["result"][0] if c["result"] else None) for c in calls)
